@@ -269,7 +269,7 @@ KEY_KINDS = {
 
 def key_shape_cases(tier, seed):
     for kind in KEY_KINDS:
-        for shape in ("list", "tuple", "iter", "generator", "map", "dictview"):
+        for shape in ("list", "tuple", "iter", "generator", "map", "dictview", "wrapper"):
             for op in ("get_many", "gets_many"):
                 for present in ([[], "all"], [[1], "all"], [[], [], [0, 2]], ["all"], [[], []], [[], [2], "all"]):
                     yield {"op": op, "kind": kind, "shape": shape, "present": present}
